@@ -73,6 +73,7 @@ fn main() {
         }
         Some("d5r") => { let mut ex = d5::Exec::new(); run("d5r", &d5gen::gen_reboot, &mut |l, o| ex.line(l, o)) }
         Some("d5c") => { let mut ex = d5::Exec::new(); run("d5c", &d5gen::gen_crash_resume, &mut |l, o| ex.line(l, o)) }
+        Some("d5t") => { let mut ex = d5::Exec::new(); run("d5t", &d5gen::gen_torn_resume, &mut |l, o| ex.line(l, o)) }
         Some("d5f") => { let mut ex = d5::Exec::new(); run("d5f", &d5gen::gen_flash_faults, &mut |l, o| ex.line(l, o)) }
         Some("d5fr") => { let mut ex = d5::Exec::new(); run("d5fr", &d5gen::gen_flash_faults_reads, &mut |l, o| ex.line(l, o)) }
         Some("d5m") => { let mut ex = d5::Exec::new(); run("d5m", &d5gen::gen_malformed, &mut |l, o| ex.line(l, o)) }
